@@ -40,7 +40,7 @@ Op(k, x, n) == [k |-> k, x |-> x, n |-> n]
 OpSet(t, r) ==
   CASE t = "gcounter"  -> {Op("inc", "", a) : a \in Amounts}
     [] t = "pncounter" -> {Op(k, "", a) : k \in {"inc", "dec"}, a \in Amounts}
-    [] t = "flag"      -> {Op("enable", "", 0)}
+    [] t = "flag"      -> {Op("enable", "", 0), Op("nop", "", 0)}     \* nop: a modify function that returns its argument
     [] t = "lww"       -> {Op("set", v, ts) : v \in Elems, ts \in (lts[r] + 1)..MaxTs}
     [] t = "mvreg"     -> {Op("set", v, 0) : v \in Elems}
     [] t = "orset"     -> {Op(k, x, 0) : k \in {"add", "rem"}, x \in Elems}
